@@ -123,29 +123,7 @@ func fieldsN(s string, n int) []string {
 
 func init() {
 	StringType.Dict["endswith"] = MustNewMethod("endswith", func(self Object, args Tuple) (Object, error) {
-		selfStr := string(self.(String))
-		suffix := []string{}
-		if len(args) > 0 {
-			if s, ok := args[0].(String); ok {
-				suffix = append(suffix, string(s))
-			} else if s, ok := args[0].(Tuple); ok {
-				for _, t := range s {
-					if v, ok := t.(String); ok {
-						suffix = append(suffix, string(v))
-					}
-				}
-			} else {
-				return nil, ExceptionNewf(TypeError, "endswith first arg must be str, unicode, or tuple, not %s", args[0].Type())
-			}
-		} else {
-			return nil, ExceptionNewf(TypeError, "endswith() takes at least 1 argument (0 given)")
-		}
-		for _, s := range suffix {
-			if strings.HasSuffix(selfStr, s) {
-				return Bool(true), nil
-			}
-		}
-		return Bool(false), nil
+		return self.(String).tailMatch("endswith", args, strings.HasSuffix)
 	}, 0, "endswith(suffix[, start[, end]]) -> bool")
 
 	StringType.Dict["count"] = MustNewMethod("count", func(self Object, args Tuple) (Object, error) {
@@ -182,35 +160,7 @@ replaced.`)
 	}, 0, "split(sub) -> split string with sub.")
 
 	StringType.Dict["startswith"] = MustNewMethod("startswith", func(self Object, args Tuple) (Object, error) {
-		selfStr := string(self.(String))
-		prefix := []string{}
-		if len(args) > 0 {
-			if s, ok := args[0].(String); ok {
-				prefix = append(prefix, string(s))
-			} else if s, ok := args[0].(Tuple); ok {
-				for _, t := range s {
-					if v, ok := t.(String); ok {
-						prefix = append(prefix, string(v))
-					}
-				}
-			} else {
-				return nil, ExceptionNewf(TypeError, "startswith first arg must be str, unicode, or tuple, not %s", args[0].Type())
-			}
-		} else {
-			return nil, ExceptionNewf(TypeError, "startswith() takes at least 1 argument (0 given)")
-		}
-		if len(args) > 1 {
-			if s, ok := args[1].(Int); ok {
-				selfStr = selfStr[s:]
-			}
-		}
-
-		for _, s := range prefix {
-			if strings.HasPrefix(selfStr, s) {
-				return Bool(true), nil
-			}
-		}
-		return Bool(false), nil
+		return self.(String).tailMatch("startswith", args, strings.HasPrefix)
 	}, 0, "startswith(prefix[, start[, end]]) -> bool")
 
 	StringType.Dict["strip"] = MustNewMethod("strip", func(self Object, args Tuple, kwargs StringDict) (Object, error) {
@@ -570,6 +520,86 @@ func (s String) slice(start, stop, length int) String {
 	startI := s.pos(start)
 	stopI := s[startI:].pos(stop-start) + startI
 	return s[startI:stopI]
+}
+
+// sliceBounds converts the optional start and end arguments of the
+// str methods into code point offsets into a string of length code
+// points, interpreted as in s[start:end]
+//
+// None means the default (0 and length), negative values count from
+// the end and are clipped to 0 and end is clipped to length.  start
+// is not clipped to length so that the caller can tell start > end.
+func sliceBounds(pystart, pyend Object, length int) (start, end int, err error) {
+	start, end = 0, length
+	if pystart != None {
+		if start, err = IndexInt(pystart); err != nil {
+			return 0, 0, err
+		}
+		if start < 0 {
+			start += length
+			if start < 0 {
+				start = 0
+			}
+		}
+	}
+	if pyend != None {
+		if end, err = IndexInt(pyend); err != nil {
+			return 0, 0, err
+		}
+		if end > length {
+			end = length
+		} else if end < 0 {
+			end += length
+			if end < 0 {
+				end = 0
+			}
+		}
+	}
+	return start, end, nil
+}
+
+// tailMatch implements startswith and endswith
+//
+// args are (sub[, start[, end]]) where sub is a str or a tuple of
+// str.  match is strings.HasPrefix or strings.HasSuffix and is
+// applied to s[start:end].
+func (s String) tailMatch(name string, args Tuple, match func(s, sub string) bool) (Object, error) {
+	if len(args) < 1 {
+		return nil, ExceptionNewf(TypeError, "%s() takes at least 1 argument (0 given)", name)
+	} else if len(args) > 3 {
+		return nil, ExceptionNewf(TypeError, "%s() takes at most 3 arguments (%d given)", name, len(args))
+	}
+	var pystart, pyend Object = None, None
+	if len(args) > 1 {
+		pystart = args[1]
+	}
+	if len(args) > 2 {
+		pyend = args[2]
+	}
+	length := s.len()
+	start, end, err := sliceBounds(pystart, pyend, length)
+	if err != nil {
+		return nil, err
+	}
+	subs, ok := args[0].(Tuple)
+	if !ok {
+		if _, ok = args[0].(String); !ok {
+			return nil, ExceptionNewf(TypeError, "%s first arg must be str, unicode, or tuple, not %s", name, args[0].Type())
+		}
+		subs = Tuple{args[0]}
+	}
+	str := string(s.slice(start, end, length))
+	for _, sub := range subs {
+		substr, ok := sub.(String)
+		if !ok {
+			return nil, ExceptionNewf(TypeError, "tuple for %s must only contain str, not %s", name, sub.Type().Name)
+		}
+		// if start > end nothing matches, not even ""
+		if start <= end && match(str, string(substr)) {
+			return True, nil
+		}
+	}
+	return False, nil
 }
 
 func (s String) M__getitem__(key Object) (Object, error) {
